@@ -44,6 +44,7 @@ class Run:
         k = C.CONTRACTS[key] if isinstance(key, str) else key
         try:
             obs, info = V.verify(k, self.prop, cls=cls, label=label, **kw)
+            if getattr(k, 'alpha_note', None): self.notes.append({'alpha_normalisation': f'{k.qual}: {k.alpha_note}'})
         except Unsupported as err:
             # this function cannot be processed: the run cannot end with exit 0, but the remaining functions,
             # lemmas and scans are still evaluated (an independently established violation stays a violation)
